@@ -834,7 +834,7 @@ sc_notify_init_input (sc_array_t * input, int *receivers, int num_receivers,
   if (payload) {
     size_t              lowbound =
       (payload->elem_size >
-       sizeof (int)) ? (payload->elem_size - sizeof (int)) : 0;
+       sizeof (int)) ? (payload->elem_size - 1) : 0;
 
     npay = lowbound / sizeof (int) + 1;
   }
@@ -890,7 +890,7 @@ sc_notify_reset_output (sc_array_t * output, int *senders, int *num_senders,
   if (payload) {
     size_t              lowbound =
       (payload->elem_size >
-       sizeof (int)) ? (payload->elem_size - sizeof (int)) : 0;
+       sizeof (int)) ? (payload->elem_size - 1) : 0;
 
     npay = lowbound / sizeof (int) + 1;
   }
@@ -1524,7 +1524,7 @@ sc_notify_payload_nary (sc_array_t * receivers, sc_array_t * senders,
   if (in_payload) {
     size_t              lowbound =
       (in_payload->elem_size >
-       sizeof (int)) ? (in_payload->elem_size - sizeof (int)) : 0;
+       sizeof (int)) ? (in_payload->elem_size - 1) : 0;
 
     nary->npay = lowbound / sizeof (int) + 1;
   }
@@ -1590,7 +1590,7 @@ sc_notify_payload_pex (sc_array_t * receivers, sc_array_t * senders,
   if (in_payload) {
     size_t              lowbound =
       (in_payload->elem_size >
-       sizeof (int)) ? (in_payload->elem_size - sizeof (int)) : 0;
+       sizeof (int)) ? (in_payload->elem_size - 1) : 0;
 
     npay = lowbound / sizeof (int) + 1;
   }
